@@ -25,7 +25,10 @@ RULE = (
     "as a value, random splices of corpus "
     "fragments; coverage-guided mutation of the corpus (atheris/libFuzzer, "
     "fixed seed and run count per shard, same oracle); "
-    "x 5 parser configurations. distinct = (parser, string); "
+    "x 5 parser configurations (+ 4 with real_cls=Decimal on the number-heavy "
+    "sources); numbers beyond what int/float/Decimal take; labels with "
+    "thousands of different words; half of the workers keep ONE parser object "
+    "per configuration for all their loads. distinct = (parser, string); "
     "non-trivial = string is not empty"
 )
 TOKENS = ["a", "1", "=", "(", ")", "{", "}", ",", ";", "<m>", "<", "'x'", "/*",
@@ -58,8 +61,23 @@ def depth_of(text):
     return m
 
 
-def run_one(rec, pvl, reader, text, holder, src):
-    parser = traced_parser(pvl, reader, holder)
+DECIMAL_READERS = ("PVL+Decimal", "ODL+Decimal", "ISIS+Decimal", "default+Decimal")
+# sources that are also run with real_cls=decimal.Decimal
+DECIMAL_SOURCES = ("atom-pairs", "extreme-numbers", "char-pair-in-context")
+_LONG_LIVED = {}
+
+
+def run_one(rec, pvl, reader, text, holder, src, reuse=False):
+    if reuse:
+        # one parser object per configuration for the life of the worker (as
+        # pvl_validate keeps them): whatever it accumulates over thousands of
+        # loads must not make a later load fail in an undocumented way
+        if reader not in _LONG_LIVED:
+            _LONG_LIVED[reader] = traced_parser(pvl, reader, holder)
+        parser = _LONG_LIVED[reader]
+        rec.count("loads_through_a_long_lived_parser")
+    else:
+        parser = traced_parser(pvl, reader, holder)
     try:
         st, res = load(pvl, reader, text, parser=parser, cpu=20)
     except Spin as e:
@@ -72,7 +90,18 @@ def run_one(rec, pvl, reader, text, holder, src):
         rec.maxi("max_pulls_per_char", round(tr.pulls / (len(text) + 2), 3))
     if st in ("ok", "LexerError", "ParseError"):
         return
-    wit = {"reader": reader, "text": text, "source": src}
+    wit = {"reader": reader, "text": text[:3000], "source": src,
+           "long_lived_parser": reuse}
+    if len(text) > 3000:
+        wit["text_length"] = len(text)
+    if reuse:
+        # does the text alone do it?
+        p2 = traced_parser(pvl, reader, holder)
+        try:
+            st2, _ = load(pvl, reader, text, parser=p2, cpu=20)
+        except Spin:
+            st2 = "Spin"
+        wit["same_text_with_a_fresh_parser"] = st2
     if st == "Spin":
         rec.violation(CHECK, reader, "spins-without-consuming-text",
                       {"family": family}, wit, str(res))
@@ -85,7 +114,10 @@ def run_one(rec, pvl, reader, text, holder, src):
     else:
         rec.violation(CHECK, reader, "undocumented-exception-type",
                       {"family": family, "exc": st,
-                       "where": innermost_pvl_frame(res)}, wit,
+                       "where": innermost_pvl_frame(res),
+                       **({"only_with_long_lived_parser": True}
+                          if reuse and wit.get("same_text_with_a_fresh_parser")
+                          in ("ok", "LexerError", "ParseError") else {})}, wit,
                       f"{st}: {res}"[:300])
 
 
@@ -138,6 +170,26 @@ def strings(tier, seed, pvl):
             yield "atom-pairs", f"k = {a}{b}\n"
             if tier == "thorough" or hash((a, b)) % 4 == 0:
                 yield "atom-pairs", f"k = ({a}{b}, {b}) <m>\nEND\n"
+    # numbers at and beyond what int(), float() and Decimal() take
+    big = ["1E400", "-1e-400", "1E99999", "1E1000000000000000000",
+           "2.5e-99999999999999999999", ".5E+12345678901234567890123",
+           "9" * 400, "9" * 4301, "-" + "9" * 5000, "1." + "0" * 4400,
+           "0." + "0" * 400 + "1", "1" + "0" * 310 + ".0", "16#" + "F" * 300 + "#",
+           "2#" + "10" * 2500 + "#", "-16#" + "A" * 4400 + "#", "10#" + "9" * 4400 + "#",
+           "1e", "1e+", "1e5e5", "0x" + "f" * 50, "1" * 50 + "e" + "1" * 50]
+    for x in big:
+        for form in ("k = {}\n", "k = ({}, 1)\nEND\n", "k = {} <m>\n", "k = {{{}}}\n",
+                     "{} = 1\n", "GROUP = {}\nEND_GROUP\n"):
+            yield "extreme-numbers", form.format(x)
+    # more different words than any one label usually has (one text, and -
+    # through the long-lived parsers - over the life of a worker)
+    for nw in (1100, 2600):
+        words = " ".join(f"w{j}x{j * 7 % 13}" for j in range(nw))
+        yield "big-vocabulary", f"k = ({words.replace(' ', ', ')})\nEND\n"
+        yield "big-vocabulary", "\n".join(f"name_{j} = value_{j}" for j in range(nw)) \
+            + "\nEND\n"
+        yield "big-vocabulary", "\n".join(f"t{j} = 2001-01-01T00:00:{j % 60:02d}.{j}"
+                                          for j in range(nw)) + "\nEND\n"
     corpus = corpus_texts(pvl)
     step = 7 if tier == "quick" else 1
     for name, t in corpus:
@@ -175,11 +227,13 @@ def shard(i, n, tier, seed, rec, hb):
             continue
         hb.beat()
         rec.count(f"strings[{src}]")
-        for reader in gt.READERS:
+        readers = gt.READERS + (DECIMAL_READERS if src in DECIMAL_SOURCES else ())
+        for reader in readers:
             rec.case((reader, text), text != "",
                      sample={"reader": reader, "text": text[:120], "source": src}
                      if rec.c["evaluations"] % 50021 == 0 else None)
-            run_one(rec, pvl, reader, text, holder, src)
+            # odd shards keep one parser object per configuration throughout
+            run_one(rec, pvl, reader, text, holder, src, reuse=bool(i % 2))
     fuzz_stage(i, n, tier, seed, rec, hb)
 
 
@@ -246,7 +300,10 @@ def finish_kwargs(rec, tier):
                            "strings[corpus-truncation]",
                            "strings[generated-truncation]",
                            "strings[corpus-splice]", "strings[value-context]",
-                           "strings[atom-pairs]",
+                           "strings[atom-pairs]", "strings[extreme-numbers]",
+                           "strings[big-vocabulary]",
+                           "loads_through_a_long_lived_parser",
+                           "outcome[default+Decimal][ok]",
                            "outcome[default][LexerError]", "outcome[PVL][ok]"),
         assumptions=["'terminates' is decided as bounded progress: pulls <= "
                      "50*(len(text)+2) (largest observed ratio is in maxima) "
